@@ -122,7 +122,9 @@ fn one_case(i: usize, k: usize, c: &Value, ws: &str, rng: &mut StdRng, out: &mut
 	};
 	let params = Params::new(text.as_deref());
 	let ops = c["ops"].as_array().unwrap();
-	let res = catch(|| {
+	// the same reads on the owned copy of the params (what async methods and subscriptions get): owning changes nothing
+	let owned = params.clone().into_owned();
+	let run = |params: &Params| catch(|| {
 		let mut seq = params.sequence();
 		let mut obs = vec![];
 		for op in ops {
@@ -158,6 +160,17 @@ fn one_case(i: usize, k: usize, c: &Value, ws: &str, rng: &mut StdRng, out: &mut
 		}
 		obs
 	});
+	let res = run(&params);
+	let res_owned = run(&owned);
+	if let (Ok(a), Ok(b)) = (&res, &res_owned) {
+		if a != b {
+			out.verdict(i, k, Some(format!("owned-params-read-differently:{mode}")), json!({"case": c, "ws": ws, "text": text, "borrowed": a.iter().map(|(x, y)| json!([x, y])).collect::<Vec<_>>(), "owned": b.iter().map(|(x, y)| json!([x, y])).collect::<Vec<_>>()}));
+			return;
+		}
+	} else if res.is_ok() != res_owned.is_ok() {
+		out.verdict(i, k, Some(format!("owned-params-read-differently:{mode}:panic")), json!({"case": c, "ws": ws, "text": text}));
+		return;
+	}
 	let obs = match res {
 		Ok(o) => o,
 		Err(p) => {
